@@ -6,7 +6,8 @@ import AsyncsshModel.Gen.C18
                | exptok <hex> (<hexchar>:<hexval>)* | expenv <hex> (<hexname>:<hexval>)* | unsafe <hex>
                | strip <hex> | glob <pattern> home=<hex> dir=<hex> (<hexpath>)*
    load op:    load k=v ...   (keys: cls, fuel, mode, canon, canonical, final, host, luser, laddr, lport, user, shost,
-               addr, lhost, home, uid, dir, env=<n>:<v>, file=<p>:<t>, path=<p>, init=<name>:<value>) -/
+               addr, lhost, home, uid, dir, env=<n>:<v>, file=<p>:<t>, path=<p>, init=<name>:<value>,
+               inh=<name>:<value> an option inherited from the previous config object) -/
 open AsyncsshModel AsyncsshModel.Config
 
 def showList (l : List Bytes) : String :=
@@ -43,6 +44,12 @@ def unhexD (s : String) : Bytes := (unhex s).getD []
 def parsePairs (ws : List String) : List (Bytes × Bytes) :=
   ws.map fun w => let (a, b) := splitColon w; (unhexD a, unhexD b)
 
+def parsePart (s : String) : RekeyPart :=
+  match s.toList with
+  | ['d'] => .dflt
+  | 's' :: r => .str (unhexD (String.ofList r))
+  | _ => .none
+
 def parseValue (s : String) : Value :=
   match s.toList with
   | 's' :: r => .str (unhexD (String.ofList r))
@@ -50,6 +57,12 @@ def parseValue (s : String) : Value :=
   | ['n'] => .none
   | ['b', '1'] => .bool true
   | ['b', '0'] => .bool false
+  | ['l'] => .list []
+  | 'l' :: r => .list (((String.ofList r).splitOn ",").map unhexD)
+  | 'r' :: r =>
+    match (String.ofList r).splitOn "," with
+    | [a, b] => .rekey (parsePart a) (parsePart b)
+    | _ => .none
   | _ => .none
 
 def cmarker (x : Bytes) : Bytes := strBytes ("<<C:" ++ hex x ++ ">>")
@@ -98,6 +111,10 @@ def applyKV (a : LoadArgs) (w : String) : LoadArgs :=
   | "file" => let (n, x) := splitColon v; { a with env := { e with files := e.files ++ [(unhexD n, unhexD x)] } }
   | "path" => { a with paths := a.paths ++ [unhexD v] }
   | "init" => let (n, x) := splitColon v; { a with init := a.init ++ [(unhexD n, parseValue x)] }
+  -- an option inherited from `last_config` (already expanded there): start of the load and `_last_options`
+  | "inh" => let (n, x) := splitColon v
+             { a with init := a.init ++ [(unhexD n, parseValue x)],
+                      env := { e with inherited := e.inherited ++ [(unhexD n, parseValue x)] } }
   | _ => a
 
 def showResult (r : Except Err St) : String :=
